@@ -18,6 +18,7 @@ fn main() {
 			"C01" => checks::c01::replay(&name, &actions),
 			"C05" => checks::c05::replay(&name, &actions),
 			"C09" => checks::c09::replay(&name, &actions),
+			"C10" => checks::c10::replay(&name, &actions),
 			_ => cli::die("replay: unknown property"),
 		};
 		std::process::exit(code);
@@ -26,6 +27,7 @@ fn main() {
 		"C01" => checks::c01::run(&args),
 		"C05" => checks::c05::run(&args),
 		"C09" => checks::c09::run(&args),
+		"C10" => checks::c10::run(&args),
 		p => cli::die(&format!("property {} is not served by mc-world", p)),
 	};
 	std::process::exit(code);
